@@ -10,6 +10,10 @@ def law_group(rng, names, nfresh):
     x = G.gen_expr(rng, rng.randint(0, 2), nfresh, names, mixed_ok=False)
     y = G.gen_expr(rng, rng.randint(0, 2), nfresh, names, mixed_ok=False)
     z = G.gen_expr(rng, rng.randint(0, 1), nfresh, names, mixed_ok=False)
+    if rng.random() < 0.15:
+        # a prefixed dimensionless unit (every base factor cancelled, or a prefix on One): an element of the group like any other
+        base = G.gen_expr(rng, 0, nfresh, names, mixed_ok=False)
+        x = ["pre", rng.choice(G.SI_PREFIXES), rng.choice([["div", base, base], ["u", "one"]])]
     a, b = rng.choice([-3, -2, -1, 1, 2, 3]), rng.choice([-3, -2, -1, 0, 1, 2, 3])
     n = rng.choice([-3, -2, -1, 1, 2, 3])
     one = ["u", "one"]
